@@ -40,13 +40,41 @@ def imports_of(tree) -> Dict[str, str]:
     return out
 
 
-def getter_of(e, receiver_names) -> Tuple[Optional[str], bool, dict]:
-    """value expression -> (getter name if it is `<recv>.<getter>(...)` directly, direct?, keyword args)"""
-    if isinstance(e, ast.Call) and isinstance(e.func, ast.Attribute) and src(e.func.value) in receiver_names and e.func.attr in LABEL_OF_GETTER:
-        return e.func.attr, True, {k.arg: k.value for k in e.keywords}
+VALUE_PRESERVING_FUNCS = {"asarray", "array", "asanyarray", "ascontiguousarray", "coo_array", "csr_array", "csc_array", "coo_matrix",
+                          "csr_matrix", "csc_matrix", "copy", "deepcopy"}
+VALUE_PRESERVING_METHODS = {"copy", "tocoo", "tocsr", "tocsc", "asformat", "astype"}
+VALUE_CHANGING = {"sorted", "reversed", "sort", "flip", "transpose", "abs", "unique", "round", "triu", "tril", "sum", "cumsum", "roll", "shuffle",
+                  "permutation", "negative", "sqrt", "log", "exp", "clip", "multiply", "power", "toarray", "todense", "diagonal", "ravel", "flatten"}
+
+
+def getter_of(e, receiver_names) -> Tuple[Optional[str], Optional[bool], dict]:
+    """value expression -> (getter name, direct?, keyword args of the getter call)
+    direct is True  when the expression is `<recv>.<getter>(...)` possibly inside value-preserving wrappers (np.asarray, .copy(),
+                     .tocsr(), coo_array(..)),
+              False when a value-changing operation is applied on the way (sorted, .T, arithmetic, slicing, ...),
+              None  when the wrapping is not recognised (undecided)."""
+    cur = e
+    for _ in range(6):
+        if isinstance(cur, ast.Call) and isinstance(cur.func, ast.Attribute) and src(cur.func.value) in receiver_names and \
+                cur.func.attr in LABEL_OF_GETTER:
+            return cur.func.attr, True, {k.arg: k.value for k in cur.keywords}
+        if isinstance(cur, ast.Call) and len(cur.args) >= 1 and src(cur.func).split(".")[-1] in VALUE_PRESERVING_FUNCS and \
+                not any(k.arg in ("dtype", "shape") for k in cur.keywords):
+            cur = cur.args[0]
+            continue
+        if isinstance(cur, ast.Call) and isinstance(cur.func, ast.Attribute) and cur.func.attr in VALUE_PRESERVING_METHODS and \
+                not (cur.func.attr == "astype"):
+            cur = cur.func.value
+            continue
+        break
     for n in ast.walk(e):
         if isinstance(n, ast.Call) and isinstance(n.func, ast.Attribute) and src(n.func.value) in receiver_names and n.func.attr in LABEL_OF_GETTER:
-            return n.func.attr, False, {k.arg: k.value for k in n.keywords}
+            kw = {k.arg: k.value for k in n.keywords}
+            changing = any((isinstance(m, ast.Call) and src(m.func).split(".")[-1] in VALUE_CHANGING) or
+                           (isinstance(m, ast.Attribute) and m.attr == "T") or
+                           isinstance(m, (ast.BinOp, ast.UnaryOp, ast.Subscript, ast.ListComp, ast.GeneratorExp))
+                           for m in ast.walk(e) if m is not n)
+            return n.func.attr, (False if changing else None), kw
     return None, False, {}
 
 
